@@ -5,6 +5,9 @@ From Coq Require Import String.
 
 Definition hdz (l : list Z) : Z := match l with c :: _ => c | [] => -1 end.
 
+Lemma hdz_app a b : a <> [] -> hdz (a ++ b) = hdz a.
+Proof. destruct a; [congruence | reflexivity]. Qed.
+
 (* ---- span ---- *)
 Lemma span_app (f : Z -> bool) a rest :
   forallb f a = true -> f (hdz rest) = false -> (rest = [] \/ rest <> []) ->
@@ -162,15 +165,75 @@ Qed.
 Lemma id_start_facts c : id_start c = true -> c <> 47 /\ c <> 60 /\ c <> 45 /\ digit c = false /\ c <> 46 /\ c <> 32.
 Proof. unfold id_start, digit. intro H. lia. Qed.
 
-Lemma lex1_id cx s R :
-  id_shape s -> nohead id_part R -> lex1 cx (s ++ R) = Some (TId s, R).
+Lemma span_id_plain a : forall n R,
+  forallb id_part a = true -> nohead id_part R -> nohead (fun c => c =? 92) R ->
+  (n > List.length a)%nat -> span_id n (a ++ R) = Some (a, R).
 Proof.
-  intros [Hne [Hs Hall]] HR. destruct s as [|c s']; [congruence|]. simpl in Hs.
-  destruct (id_start_facts c Hs) as (A & B & C & D & E & F).
-  unfold lex1. change ((c :: s') ++ R) with (c :: (s' ++ R)).
-  rewrite comment_start_hd by assumption. rewrite Hs.
-  change (c :: s' ++ R) with ((c :: s') ++ R). rewrite (span_app' id_part _ _ Hall HR). reflexivity.
+  induction a as [|x a IH]; intros n R Ha HR H92 Hn; (destruct n as [|n]; [simpl in Hn; lia|]).
+  - simpl. destruct R as [|c r]; [reflexivity|].
+    rewrite (HR c r eq_refl), (H92 c r eq_refl). reflexivity.
+  - simpl in Ha. apply andb_true_iff in Ha as [Hx Ha]. simpl app. cbn [span_id]. rewrite Hx.
+    rewrite (IH n R Ha HR H92) by (simpl in Hn; lia). reflexivity.
 Qed.
+
+Definition esc_seq (hex : list Z) : list Z := [92; 117; 123] ++ hex ++ [125].
+Definition esc_id_shape (s : list Z) : Prop :=
+  exists pre hex, s = pre ++ esc_seq hex /\ id_shape pre /\ hex <> [] /\ forallb hexd hex = true.
+Definition word_shape (s : list Z) : Prop := id_shape s \/ esc_id_shape s.
+
+Lemma lex_escape_braces hex R :
+  hex <> [] -> forallb hexd hex = true ->
+  lex_escape (117 :: 123 :: hex ++ 125 :: R) = Some ([117; 123] ++ hex ++ [125], R).
+Proof.
+  intros Hne Hh. unfold lex_escape. change (117 =? 117) with true. change (123 =? 123) with true. cbv iota.
+  assert (H125 : nohead hexd (125 :: R)) by (intros c r E; inversion E; subst; reflexivity).
+  rewrite (span_app' hexd _ _ Hh H125). destruct hex as [|h0 hex']; [congruence|].
+  change (125 =? 125) with true. reflexivity.
+Qed.
+
+Lemma span_id_esc pre hex : forall n R,
+  forallb id_part pre = true -> hex <> [] -> forallb hexd hex = true ->
+  nohead id_part R -> nohead (fun c => c =? 92) R ->
+  (n > List.length pre + 2)%nat ->
+  span_id n (pre ++ esc_seq hex ++ R) = Some (pre ++ esc_seq hex, R).
+Proof.
+  induction pre as [|x pre IH]; intros n R Hp Hne Hh HR H92 Hn; (destruct n as [|n]; [lia|]).
+  - unfold esc_seq. simpl app. cbn [span_id]. change (id_part 92) with false. change (92 =? 92) with true. cbv iota.
+    replace (117 :: 123 :: (hex ++ [125]) ++ R) with (117 :: 123 :: hex ++ 125 :: R) by (rewrite <- app_assoc; reflexivity).
+    rewrite (lex_escape_braces hex R Hne Hh).
+    pose proof (span_id_plain [] n R eq_refl HR H92) as Hp0. simpl app in Hp0. rewrite Hp0 by (simpl in *; lia).
+    rewrite app_nil_r. reflexivity.
+  - simpl in Hp. apply andb_true_iff in Hp as [Hx Hp].
+    change ((x :: pre) ++ esc_seq hex ++ R) with (x :: (pre ++ esc_seq hex ++ R)). cbn [span_id]. rewrite Hx.
+    rewrite (IH n R Hp Hne Hh HR H92) by (simpl in Hn; lia). reflexivity.
+Qed.
+
+Lemma word_shape_hd s : word_shape s -> s <> [] /\ id_start (hdz s) = true.
+Proof.
+  intros [[Hne [Hs _]] | (pre & hex & E & [Hne [Hs _]] & _)].
+  - split; assumption.
+  - subst s. split; [destruct pre; [congruence | discriminate] | rewrite hdz_app by exact Hne; exact Hs].
+Qed.
+
+Lemma lex1_word cx s R :
+  word_shape s -> nohead id_part R -> nohead (fun c => c =? 92) R -> lex1 cx (s ++ R) = Some (TId s, R).
+Proof.
+  intros Hw HR H92. destruct (word_shape_hd s Hw) as [Hne Hs].
+  assert (Hspan : span_id (S (List.length (s ++ R))) (s ++ R) = Some (s, R)).
+  { destruct Hw as [[_ [_ Hall]] | (pre & hex & E & [_ [_ Hall]] & Hhne & Hh)].
+    - apply span_id_plain; try assumption. rewrite app_length. lia.
+    - subst s. rewrite <- app_assoc. apply span_id_esc; try assumption.
+      rewrite !app_length. unfold esc_seq. simpl. lia. }
+  destruct s as [|c s']; [congruence|]. simpl in Hs.
+  destruct (id_start_facts c Hs) as (A & B & C & D & E & F).
+  unfold lex1. change ((c :: s') ++ R) with (c :: (s' ++ R)) in *.
+  rewrite comment_start_hd by assumption. rewrite Hs. simpl orb. cbv iota.
+  rewrite Hspan. reflexivity.
+Qed.
+
+Lemma lex1_id cx s R :
+  id_shape s -> nohead id_part R -> nohead (fun c => c =? 92) R -> lex1 cx (s ++ R) = Some (TId s, R).
+Proof. intro H. apply lex1_word. left. exact H. Qed.
 
 Definition num_shape (s : list Z) : Prop := s <> [] /\ forallb digit s = true.
 
@@ -184,7 +247,8 @@ Proof.
   assert (Hc : digit c = true) by (simpl in Hall; apply andb_true_iff in Hall; tauto).
   destruct (digit_facts c Hc) as (A & B & C & D & E).
   unfold lex1. change ((c :: s') ++ R) with (c :: (s' ++ R)).
-  rewrite comment_start_hd by assumption. rewrite D, Hc. simpl orb. cbv iota.
+  assert (H92c : (c =? 92) = false) by (unfold digit in Hc; lia).
+  rewrite comment_start_hd by assumption. rewrite D, H92c, Hc. simpl orb. cbv iota.
   change (c :: s' ++ R) with ((c :: s') ++ R).
   assert (HRd : nohead digit R).
   { intros d r Hd. specialize (HR d r Hd). unfold id_part in HR. apply orb_false_iff in HR. tauto. }
@@ -197,9 +261,6 @@ Qed.
 (* ---- regular expression literal ---- *)
 Definition re_shape (b f : list Z) : Prop :=
   b <> [] /\ forallb re_char_ok b = true /\ hdz b <> 42 /\ forallb id_part f = true.
-
-Lemma hdz_app a b : a <> [] -> hdz (a ++ b) = hdz a.
-Proof. destruct a; [congruence | reflexivity]. Qed.
 
 Lemma re_char_ok_facts c : re_char_ok c = true -> c <> 47.
 Proof. unfold re_char_ok. intro H. lia. Qed.
@@ -220,7 +281,7 @@ Proof.
       rewrite E. simpl. intros [X|[X|[]]]; congruence.
     - discriminate. }
   simpl app in Hcs. unfold lex1. rewrite Hcs.
-  change (id_start 47) with false. change (digit 47) with false. change (47 =? 46) with false.
+  change (id_start 47) with false. change (47 =? 92) with false. change (digit 47) with false. change (47 =? 46) with false.
   change (47 =? 47) with true. rewrite Hg. cbv beta iota. simpl orb. simpl andb. cbv iota.
   assert (H47 : nohead re_char_ok (47 :: f ++ R)).
   { intros c r E. inversion E; subst. reflexivity. }
@@ -233,7 +294,7 @@ Qed.
 (* ---- punctuators ---- *)
 Definition punct_facts (p : list Z) : bool :=
   (1 <=? List.length p)%nat && (List.length p <=? 4)%nat
-  && negb (id_start (hdz p)) && negb (digit (hdz p))
+  && negb (id_start (hdz p)) && negb (hdz p =? 92) && negb (digit (hdz p))
   && (negb (hdz p =? 46) || zlist_eqb p [46] || zlist_eqb p [46; 46; 46])
   && negb (existsb (fun w => prefix_b w p) (openers true)).
 
@@ -272,6 +333,7 @@ Proof.
   unfold lex1. change ((c0 :: p') ++ R) with (c0 :: (p' ++ R)) in *.
   rewrite Hcs.
   match goal with H : negb (id_start c0) = true |- _ => apply negb_true_iff in H; rewrite H end.
+  match goal with H : negb (c0 =? 92) = true |- _ => apply negb_true_iff in H; rewrite H end.
   match goal with H : negb (digit c0) = true |- _ => apply negb_true_iff in H; rewrite H end.
   simpl orb.
   assert (Hd : (c0 =? 46) && match p' ++ R with d :: _ => digit d | [] => false end = false).
